@@ -43,7 +43,7 @@ func main() {
 		}
 		run.Finish()
 	}
-	if !run.Fork(16) {
+	if !run.Fork(16, "GOMAXPROCS=1") {
 		runConcurrent(run)
 		run.Finish()
 	}
